@@ -28,6 +28,10 @@ def setup_env():
     os.environ.setdefault("OMP_NUM_THREADS", "1")
     os.environ.setdefault("MPLBACKEND", "Agg")
     os.environ[GUARD] = "1"
+    # persistent XLA compilation cache (keyed by the HLO itself, hence sound across source changes)
+    os.environ.setdefault("JAX_COMPILATION_CACHE_DIR", os.path.join(CACHE, "jaxcache"))
+    os.environ.setdefault("JAX_PERSISTENT_CACHE_MIN_COMPILE_TIME_SECS", "0.5")
+    os.environ.setdefault("JAX_PERSISTENT_CACHE_MIN_ENTRY_SIZE_BYTES", "0")
     for d in (EVID, REPLAY, CACHE, WORK):
         os.makedirs(d, exist_ok=True)
 
